@@ -4,6 +4,7 @@ import (
 	"context"
 	"errors"
 	"fmt"
+	"slices"
 	"strings"
 	"sync"
 	"testing"
@@ -39,6 +40,9 @@ type dialTransport struct {
 	links    map[string]*fakes.Link // address -> live link
 	attempts map[string]int         // "peer@addr" -> DialPeer calls
 	serial   uint64
+	// aborts[addr] = number of coming dial attempts at addr that fail as an aborted in-flight dial does: with an
+	// error that wraps context.Canceled although the request itself is alive
+	aborts map[string]int
 }
 
 func (d *dialTransport) MatchTransportType(t string) bool { return t == "tbl" }
@@ -50,6 +54,11 @@ func (d *dialTransport) DialPeer(ctx context.Context, p peer.ID, addr string) (l
 	d.mu.Lock()
 	d.attempts[p.String()+"@"+addr]++
 	who := d.serving[addr]
+	if d.aborts[addr] > 0 {
+		d.aborts[addr]--
+		d.mu.Unlock()
+		return nil, false, fmt.Errorf("tbl: the dial of %s was aborted: %w", addr, context.Canceled)
+	}
 	if l := d.links[addr]; l != nil && l.GetRemotePeer() == p {
 		d.mu.Unlock()
 		return l, false, nil
@@ -101,7 +110,8 @@ func (d *dialTransport) linkAt(addr string) *fakes.Link {
 
 type c05cOp struct {
 	// Op: bind (addr served by Who: 1 = X, 2 = Y, 0 = nobody; a link with the previous holder is lost), dial
-	// (DialPeerAddr(X, addr)), lose (the link at addr is lost), pause
+	// (DialPeerAddr(X, addr)), lose (the link at addr is lost), pause, abort (the next 1-2 dial attempts at addr end
+	// with an error wrapping context.Canceled, as an in-flight dial aborted by the transport does)
 	Op   string `json:"op"`
 	Addr int    `json:"addr"`
 	Who  int    `json:"who"`
@@ -123,7 +133,7 @@ func genC05c(t *rapid.T) c05cCase {
 	n := rapid.IntRange(3, 12).Draw(t, "n")
 	for i := 0; i < n; i++ {
 		c.Ops = append(c.Ops, c05cOp{
-			Op:   rapid.SampledFrom([]string{"bind", "bind", "dial", "dial", "dial", "lose", "lose", "pause"}).Draw(t, "op"),
+			Op:   rapid.SampledFrom([]string{"bind", "bind", "dial", "dial", "dial", "lose", "lose", "pause", "abort"}).Draw(t, "op"),
 			Addr: rapid.IntRange(0, 1).Draw(t, "addr"),
 			Who:  rapid.SampledFrom([]int{1, 1, 1, 2, 0}).Draw(t, "who"),
 		})
@@ -140,7 +150,7 @@ func checkC05c(c c05cCase) (o vstat.Outcome) {
 		return
 	}
 	defer tb.Release()
-	dt := &dialTransport{fakeTransport: fakeTransport{uuid: 7777, pid: gen.PeerID(0)}, serving: map[string]int{}, links: map[string]*fakes.Link{}, attempts: map[string]int{}}
+	dt := &dialTransport{fakeTransport: fakeTransport{uuid: 7777, pid: gen.PeerID(0)}, serving: map[string]int{}, links: map[string]*fakes.Link{}, attempts: map[string]int{}, aborts: map[string]int{}}
 	ctrl := transport_controller.NewController(quietLog, tb.Bus, controller.NewInfo("verif/tbl-transport", semver.MustParse("0.0.1"), "tbl"), gen.PeerID(0), false,
 		func(ctx context.Context, le *logrus.Entry, pkey crypto.PrivKey, handler transport.TransportHandler) (transport.Transport, error) {
 			dt.mu.Lock()
@@ -271,6 +281,14 @@ func checkC05c(c c05cCase) (o vstat.Outcome) {
 					return
 				}
 			}
+		case "abort":
+			dt.mu.Lock()
+			dt.aborts[a] = 1 + op.Who%2
+			dt.mu.Unlock()
+			hist = append(hist, fmt.Sprintf("abort(%s x%d)", a, 1+op.Who%2))
+			if !slices.Contains(o.Classes, "attempt-aborted-by-transport") {
+				o.Classes = append(o.Classes, "attempt-aborted-by-transport")
+			}
 		case "lose":
 			if dt.lose(a) {
 				hist = append(hist, fmt.Sprintf("lose(%s)", a))
@@ -286,7 +304,7 @@ func checkC05c(c c05cCase) (o vstat.Outcome) {
 			return
 		}
 	}
-	o.NonTrivial = twoLinks || impostor
+	o.NonTrivial = twoLinks || impostor || slices.Contains(o.Classes, "attempt-aborted-by-transport")
 	if twoLinks {
 		o.Classes = append(o.Classes, "links-with-X-at-both-addresses")
 	}
@@ -327,7 +345,7 @@ func checkC05c(c c05cCase) (o vstat.Outcome) {
 
 var specC05c = vstat.Spec[c05cCase]{
 	Property: "C05",
-	Rule: "controller layer: the real transport controller over a table-driven dialing transport (address -> serving identity; refuses an answer from another peer, as the QUIC transports do); histories of 3-12 operations bind(address served by X / Y / nobody, the previous holder's link is lost), DialPeerAddr(X, address), lose the link at an address, with or without standing DialTptAddr requests for X at both addresses; then all links are lost and X serves both addresses; " +
+	Rule: "controller layer: the real transport controller over a table-driven dialing transport (address -> serving identity; refuses an answer from another peer, as the QUIC transports do); histories (incl. dial attempts that the transport aborts with a cancellation error while the request is alive) of 3-12 operations bind(address served by X / Y / nobody, the previous holder's link is lost), DialPeerAddr(X, address), lose the link at an address, with or without standing DialTptAddr requests for X at both addresses; then all links are lost and X serves both addresses; " +
 		"oracle: a dial for X only ever returns a link with X, nothing is listed for X or Y that is not theirs; X serving => the dial produces a link (4 s); X absent => the request keeps retrying (>= 2 attempts while it is kept alive: until they were seen, at least 120 ms, at most 3 s; 10 ms back-off); in the recovery phase a dial at each address produces a link there; non-trivial = links with X at both addresses at once, or an impostor answered",
 	Assumptions: []string{"a 10 ms constant back-off yields a second attempt within 3 s"},
 	Gen:         genC05c,
